@@ -184,22 +184,22 @@ type LBlock struct {
 
 // LStream is the explicit layout of one stream.
 type LStream struct {
-	Magic      []byte
-	Flag0      byte
-	Flag1      byte
-	HdrCrcBad  bool
-	Blocks     []LBlock
-	Indicator  byte
-	Count      uint64
-	Recs       []XZRecord
-	IdxPad     []byte
-	IdxCrcBad  bool
-	Backward   uint32 // stored value (real size / 4 - 1)
-	FtrFlag0   byte
-	FtrFlag1   byte
-	FtrMagic   []byte
-	FtrCrcBad  bool
-	PadAfter   []byte
+	Magic     []byte
+	Flag0     byte
+	Flag1     byte
+	HdrCrcBad bool
+	Blocks    []LBlock
+	Indicator byte
+	Count     uint64
+	Recs      []XZRecord
+	IdxPad    []byte
+	IdxCrcBad bool
+	Backward  uint32 // stored value (real size / 4 - 1)
+	FtrFlag0  byte
+	FtrFlag1  byte
+	FtrMagic  []byte
+	FtrCrcBad bool
+	PadAfter  []byte
 	// Wrap names index integers ("count", "unpadded:<i>", "usize:<i>", i 0-based) written as the
 	// ten-byte encoding of value + 2^64
 	Wrap map[string]bool
